@@ -3,7 +3,7 @@
 DUT: luna.gateware.usb.usb3.link.transmitter.RawPacketTransmitter (real code).  The words it gets accepted by the PHY are
   replayed (harness-side, contiguous, receivers reset before each packet) into the real RawHeaderPacketReceiver and
   DataPacketReceiver, which sit in the same harness.
-Workload: sessions of 40 packets: data headers (60 %) with payloads of every length mod 4 (0..70 mostly, some up to 300,
+Workload: sessions of 100 packets (elaborating the three CRC-32/CRC-16 users costs far more than simulating them): data headers (60 %) with payloads of every length mod 4 (0..70 mostly, some up to 300,
   1024 in the thorough tier; zero-length = no data offered), delayed data headers (DPP must be aborted), transaction /
   link-management / isochronous-timestamp headers; all header words, sequence number, reserved bits, hub depth, delayed,
   deferred random; the header's own crc16/crc5 inputs are garbage (must be ignored).  Requests the two ways the link
@@ -37,8 +37,8 @@ from rv.sim import Bench
 from rv.ref import c35_usb3link as L
 
 PROPERTY = "C36"
-CASES = {"quick": 48, "thorough": 800}
-RULE = ("case = session of 40 packets (60% data headers with payload 0..300 bytes, every length mod 4; delayed data headers; "
+CASES = {"quick": 32, "thorough": 480}
+RULE = ("case = session of 100 packets (60% data headers with payload 0..300 bytes, every length mod 4; delayed data headers; "
         "TP/LMP/ITP headers), strobe or level requests, back to back or spaced, one PHY ready profile plus stalls aimed at chosen "
         "words; transmitted words replayed into the real header and data receivers; non-trivial = all four payload alignments, "
         ">=1 zero-length, >=1 aborted packet and stalls on CRC and END words; distinct = hash of all stimulus")
@@ -195,7 +195,7 @@ def run_case(rng, tier, res):
 
     h = Harness()
     tx, hrx, drx = h.tx, h.hrx, h.drx
-    n_packets = 40
+    n_packets = 100
     plan = [gen_packet(rng, tier) for _ in range(n_packets)]
     profile = rng.choice([("always",), ("always",), ("random", 0.5), ("random", 0.8), ("random", 0.3), ("pulse", rng.randint(2, 4)),
                           ("bursty", 4, 6), ("bursty", 6, 3)])
